@@ -157,21 +157,8 @@ Fixpoint span_len (pred : N -> bool) (l : list N) : nat :=
 Definition is_hws (r : N) : bool := (r =? 32) || (r =? 9) || (r =? 13).
 (* isDigit *)
 Definition is_digit (r : N) : bool := (48 <=? r) && (r <=? 57).
-(* readComment's predicate *)
-Definition comment_char (r : N) : bool := negb (r =? 0) && negb (r =? 10).
 (* readNum's predicate *)
 Definition num_char (r : N) : bool := is_digit r || (r =? 46).
-
-(* readString's loop: number of runes consumed after the opening quote.
-   [esc] is the variable `escaped` computed for the rune under the cursor. *)
-Fixpoint string_span (esc : bool) (l : list N) : nat :=
-  match l with
-  | [] => O                                              (* pr == 0 *)
-  | c :: r =>
-    if (c =? 34) && negb esc then 1%nat                  (* closing quote: advance, break *)
-    else if (c =? 0) || (c =? 10) then O                 (* error case: break *)
-    else S (string_span ((c =? 92) && negb esc) r)
-  end.
 
 (* lookupKeyword: a Go map lookup *)
 Fixpoint lookup_keyword (kws : list (str * token_type)) (s : str) : option token_type :=
@@ -183,6 +170,27 @@ Fixpoint lookup_keyword (kws : list (str * token_type)) (s : str) : option token
 Section Lexer.
   (* unicode.IsLetter, unicode.IsDigit: oracles *)
   Variable uni_letter uni_digit : N -> bool.
+  (* The code uses rune 0 both for "beyond the end of the input" (lookAt) and
+     as an ordinary rune of the input, so a U+0000 in the source ends the
+     token stream (finding lex-nul-truncates-input).  [nul_is_eof = true] is
+     the code as it is; [false] is the corrected lexer in which lookAt returns
+     a sentinel that is not a rune (proposed_fixes/C03-lex-nul-eof.diff). *)
+  Variable nul_is_eof : bool.
+  Definition is_end (r : N) : bool := nul_is_eof && (r =? 0).
+
+  (* readComment's predicate: r != 0 && r != '\n' *)
+  Definition comment_char (r : N) : bool := negb (is_end r) && negb (r =? 10).
+
+  (* readString's loop: number of runes consumed after the opening quote.
+     [esc] is the variable `escaped` computed for the rune under the cursor. *)
+  Fixpoint string_span (esc : bool) (l : list N) : nat :=
+    match l with
+    | [] => O                                              (* pr == 0 *)
+    | c :: r =>
+      if (c =? 34) && negb esc then 1%nat                  (* closing quote: advance, break *)
+      else if is_end c || (c =? 10) then O                 (* error case: break *)
+      else S (string_span ((c =? 92) && negb esc) r)
+    end.
 
   (* isLetter *)
   Definition is_letter (r : N) : bool := uni_letter r || (r =? 95).
@@ -227,7 +235,7 @@ Section Lexer.
       | Some lit => (T_STRING_LIT, lit, S k)
       | None => (T_ILLEGAL, invalid_string, S k)
       end
-    else if c =? 0 then (T_EOF, [], 1%nat)
+    else if is_end c then (T_EOF, [], 1%nat)                     (* case 0 *)
     else if is_letter c then
       let k := span_len ident_char rest in
       let lit := c :: firstn k rest in
@@ -260,8 +268,12 @@ Section Lexer.
       end
     end.
 
-  Definition lex (input : list N) : list token := lex_go O 0 1 1 input.
+  Definition lex_gen (input : list N) : list token := lex_go O 0 1 1 input.
 End Lexer.
+
+(* the lexer as it is, and the corrected one *)
+Definition lex (uni_letter uni_digit : N -> bool) := lex_gen uni_letter uni_digit true.
+Definition lex_fixed (uni_letter uni_digit : N -> bool) := lex_gen uni_letter uni_digit false.
 
 (* ---------- entry point for the driver ----------
    case:   ((cp isLetter isDigit) ...) (cp ...)       the table lists every code point of the input
@@ -299,13 +311,16 @@ Fixpoint dec_cps (l : list sx) : option (list N) :=
 Definition enc_token (t : token) : sx :=
   Lst [Sym (tt_name (t_type t)); Str (t_lit t); Int (Z.of_N (t_off t)); Int (Z.of_N (t_line t)); Int (Z.of_N (t_col t))].
 
-Definition lex_case (x : sx) : sx :=
+Definition lex_case_gen (b : bool) (x : sx) : sx :=
   match x with
   | Lst [Lst tbl; Lst cps] =>
     match dec_table tbl, dec_cps cps with
     | Some tbl, Some cps =>
-      Lst (map enc_token (lex (fun c => fst (table_get tbl c)) (fun c => snd (table_get tbl c)) cps))
+      Lst (map enc_token (lex_gen (fun c => fst (table_get tbl c)) (fun c => snd (table_get tbl c)) b cps))
     | _, _ => Sym (s_ "decode-error"%string)
     end
   | _ => Sym (s_ "decode-error"%string)
   end.
+
+Definition lex_case := lex_case_gen true.
+Definition lex_fixed_case := lex_case_gen false.
